@@ -18,6 +18,12 @@ Three parts (DESIGN §4 C20):
       harness-built, de-duplicated, zero-filtered table and never exceed min(#prefixes, #suffixes);
       a spy on symbolic_mpo.bipartite_vertex_cover applies the cover test to every graph the builder
       really submits (construction and adjacent-site swaps).
+
+Known finding F-C20a (own signature ``table.<algo>.bond_inflated_by_symbol_spelling``): Op.split_elementary keeps
+the spelling r"b^\dagger + b" for a term consisting of that single symbol but re-spells it r"b^\dagger+b" in
+terms with several symbols, so one operator enters the table as two primary operators and the bonds exceed the
+minimum cover of the operator-level table; the check recognises exactly this case (bonds equal the covers of the
+table with the two spellings kept apart) and reports every other deviation under the ordinary signatures.
 """
 import multiprocessing as mp
 import os
@@ -483,8 +489,9 @@ class C20(Prop):
             "(one framework case = one chunk of up to 8192 (quick) / 32768 (thorough) masks; graph-level counts are in the class "
             "histogram, labels 'enum.total.*'); a graph is non-trivial when it has >=2 edges and (nu < min(|U|,|V|) or an isolated "
             "vertex), a chunk when it contains such a graph.  Generated part: random graphs up to 40x40 (11 styles/densities; "
-            "same non-trivial rule) and term tables (pool / pair-interaction / product-of-sums / C01 generators, 2-8 sites, <=40 "
-            "terms; non-trivial when at some cut the minimum cover is smaller than min(#distinct prefixes, #distinct suffixes), "
+            "same non-trivial rule) and term tables (few-body pool / all-pairs / sum-of-products / C01 generators, spin-heavy; "
+            "quick 2-6 sites <=20 terms, thorough 2-8 sites <=40 terms; both graph algorithms on every table, <=2 adjacent swaps "
+            "to feed the spy; non-trivial when at some cut the minimum cover is smaller than min(#distinct prefixes, #distinct suffixes), "
             "i.e. complementary operators are needed)")
     assumptions = ["precondition (DESIGN §3.10): graphs have >=1 edge; neighbour lists contain no repeated vertex",
                    "tables returned by the SciPy path may be shorter than |U|,|V| for trailing isolated vertices: padded with False",
